@@ -77,6 +77,11 @@ func responseSeedsFixed() [][]byte {
 		[]byte("HTTP/1.1 101 OK\nUpgrade: WebSocket\nConnection: upgrade\nSec-WebSocket-Protocol: json\nSec-WebSocket-Accept: s3pPLMBiTxaQ9kYGzzhZRbK+xOo=\n\n"),
 		[]byte("HTTP/1.1 400 Bad Request\r\nContent-Type: text/plain\r\nContent-Length: 5\r\n\r\nnope!"),
 		[]byte("HTTP/1.1 301 Moved\r\nLocation: http://elsewhere/\r\nTransfer-Encoding: chunked\r\n\r\n5\r\nhello\r\n0\r\n\r\n"),
+		// announced body lengths on the edges of int32/int64 with a short real body (the HTTP counterpart of the extreme frame lengths)
+		[]byte("HTTP/1.1 400 Bad Request\r\nContent-Length: 9223372036854775807\r\n\r\noops"),
+		[]byte("HTTP/1.1 403 Forbidden\r\nContent-Length: 2147483648\r\n\r\noops"),
+		[]byte("HTTP/1.1 200 OK\r\nContent-Length: 4294967296\r\nConnection: close\r\n\r\n"),
+		[]byte("HTTP/1.1 500 Oops\r\nContent-Length: 9223372036854775806\r\n\r\n" + strings.Repeat("x", 200)),
 	}
 }
 
@@ -123,7 +128,12 @@ func init() {
 // ----------------------------------------------------------------- mutator
 
 var tokens = [][]byte{[]byte("\r\n"), []byte("\n"), []byte("\r"), []byte("=="), []byte("Sec-WebSocket-Key: "), []byte("dGhlIHNhbXBsZSBub25jZQ=="), []byte(":"), []byte(","), []byte(";"), []byte("="), []byte("\""), {0}, {0xff}, []byte("permessage-deflate"), []byte("client_max_window_bits"), []byte(" "), []byte("\t"),
-	[]byte("HTTP/1.1"), []byte("101"), []byte("Sec-WebSocket-Extensions: "), []byte("Sec-WebSocket-Protocol: "), []byte("\r\n\r\n"), {0x81, 0x7e}, {0x88, 0x7f}, {0x80, 0x00}}
+	[]byte("HTTP/1.1"), []byte("101"), []byte("Content-Length: 9223372036854775807\r\n"), []byte("Content-Length: 18446744073709551621\r\n"), []byte("Transfer-Encoding: chunked\r\n"), []byte("400"), []byte("Sec-WebSocket-Extensions: "), []byte("Sec-WebSocket-Protocol: "), []byte("\r\n\r\n"), {0x81, 0x7e}, {0x88, 0x7f}, {0x80, 0x00}}
+
+// decimal numbers that sit on the edges of the integer types a parser may convert them into
+var extremeNumbers = []string{"0", "1", "7", "16", "100", "101", "255", "256", "65535", "65536", "2147483647", "2147483648", "4294967295", "4294967296",
+	"9223372036854775807", "9223372036854775806", "9223372036854775707", "9223372036854775808", "18446744073709551615", "18446744073709551616", "18446744073709551624", "18446744073709551717",
+	"99999999999999999999", "-1", "+1", "00000000000000000000001", "0x10", "1e3"}
 
 var extremeLens = []uint64{1<<31 - 1, 1 << 31, 1 << 32, 1 << 40, 1 << 47, 1 << 48, 1 << 62, 1<<63 - 1, 1 << 63, 1<<64 - 1, 65536, 126}
 
@@ -135,7 +145,24 @@ func mutate(rng *rand.Rand, kind string, data []byte) []byte {
 			d = append(d, byte(rng.Intn(256)))
 			continue
 		}
-		switch rng.Intn(9) {
+		switch rng.Intn(10) {
+		case 9: // rewrite a run of ASCII digits (status, version, Content-Length, window bits, ...) into an extreme number
+			var runs [][2]int
+			for a := 0; a < len(d); a++ {
+				if d[a] >= '0' && d[a] <= '9' {
+					b := a
+					for b < len(d) && d[b] >= '0' && d[b] <= '9' {
+						b++
+					}
+					runs = append(runs, [2]int{a, b})
+					a = b
+				}
+			}
+			if len(runs) > 0 && kind != "frames" && kind != "deflate" {
+				r := runs[rng.Intn(len(runs))]
+				num := extremeNumbers[rng.Intn(len(extremeNumbers))]
+				d = append(d[:r[0]:r[0]], append([]byte(num), d[r[1]:]...)...)
+			}
 		case 0: // bit flip
 			k := rng.Intn(len(d))
 			d[k] ^= 1 << uint(rng.Intn(8))
@@ -485,7 +512,7 @@ func main() {
 		Property: "C15",
 		Level:    "exploration",
 		Rule: fmt.Sprintf("crash/hang/over-read oracle (recover() per case, supervisor surviving fatal errors, read counters on the transport) over %d decoding entry points (ReadHeader, ReadFrame, wsutil.Reader in 4 configurations, NextReader, ReadMessage, ReadData/ReadText, ControlHandler, DecompressFrame, ParseCloseFrameData+HandleControlMessage, Upgrader with Protocol/Negotiate=wsflate and with Extension, HTTPUpgrader via http.ReadRequest + hijacker stub, DebugUpgrader, Dialer with protocols/extensions offered, DebugDialer, wsflate.Parameters/Extension.Negotiate, wsflate.Reader): ", len(targets)) +
-			"(a) a deterministic structure-aware mutator (bit flips, byte/run overwrite, truncation, slice duplication/deletion, token injection, frame length-field rewrites to 126/65536/2^31..2^64-1) over valid seeds of each kind (frame streams, requests, responses, option lists, deflate streams, close payloads) under random chunk plans, 16 inputs per case; (b) short random byte strings; (c) headers announcing 2^31-1..2^63-1 bytes at every frame entry point in 4 stream shapes, each in its own process; (d) allocation metering of ReadHeader / Reader.NextFrame (<= 4 KiB per call for any announced length) and MaxFrameSize refusal without reading payload. thorough additionally runs Go's coverage-guided fuzzer on every target (see coverage.fuzz). distinct = (target, seed bucket) classes.",
+			"(a) a deterministic structure-aware mutator (bit flips, byte/run overwrite, truncation, slice duplication/deletion, token injection, rewriting of decimal digit runs into numbers on the edges of the integer types, frame length-field rewrites to 126/65536/2^31..2^64-1) over valid seeds of each kind (frame streams, requests, responses, option lists, deflate streams, close payloads) under random chunk plans, 16 inputs per case; (b) short random byte strings; (c) headers announcing 2^31-1..2^63-1 bytes at every frame entry point in 4 stream shapes, each in its own process; (d) allocation metering of ReadHeader / Reader.NextFrame (<= 4 KiB per call for any announced length) and MaxFrameSize refusal without reading payload. thorough additionally runs Go's coverage-guided fuzzer on every target (see coverage.fuzz). distinct = (target, seed bucket) classes.",
 		Assumptions: []string{"entry points documented to allocate the announced length (ReadFrame, ReadMessage, DecompressFrame on ReadFrame output) receive lengths above 64 MiB only in the isolated extreme-length processes", "ControlHandler is given checked headers only, as its documentation requires", "a hang is decided by read counters on the transport; the supervisor's wall-clock watchdog only triggers isolation"},
 		HangSeconds: 40,
 		Subs:        []mon.Sub{subMutate(), subRandomBytes(), subExtreme(), subAllocAndLimit(), subExtremeInner()},
